@@ -490,12 +490,15 @@ struct Ctx<'a> {
 impl Ctx<'_> {
     fn case(&mut self, decoder: usize, arg: usize, bytes: &[u8], origin: &str) {
         let mut obs = Obs::default();
+        // an abort (allocation failure, stack overflow) escapes `catch`: leave the input for the crash dump
+        vcore::crash::set_current(DECODERS[decoder], arg as u64, bytes);
         let fails = match decoder {
             0 => check_packet(bytes, arg, &mut obs),
             1 => check_frames(bytes, arg, &mut obs),
             2 => check_params(bytes, arg, &mut obs),
             _ => check_prim(bytes, arg, &mut obs),
         };
+        vcore::crash::clear();
         let rep = &mut *self.rep;
         self.inputs += 1;
         rep.evaluations += 1;
